@@ -361,6 +361,10 @@ def remove_qubit(tableau, qubit_position, measurement_determinism="probabilistic
     tableau, outcome, probabilistic = z_measurement_gate(
         tableau, qubit_position, measurement_determinism
     )
+    if outcome == 1:
+        # the removed qubit is in |1>: generators acting on it with Z pick up its eigenvalue -1
+        z_rows = n_qubits + np.nonzero(tableau.stabilizer_z[:, qubit_position])[0]
+        tableau.phase[z_rows] = tableau.phase[z_rows] ^ 1
     new_table = np.delete(
         tableau.table, [qubit_position, qubit_position + n_qubits], axis=1
     )
